@@ -37,6 +37,8 @@ Judge(r) ==
        IF obs # exp
          THEN IF obs = {} /\ occ.file # r.main      \* inside an imported file the position is also inside the file definition, which is not renamable
                 THEN <<V(r.id, "deviation", "ImportedFileSpanShadowsSymbols", "rename offered but no edit returned" \o at)>>
+              ELSE IF stray # {} /\ stray \subseteq ShadowedCalls(P, d)
+                THEN <<V(r.id, "deviation", "RenameSkipsShadowedMacroCall", "edit set " \o ToString(obs) \o " expected " \o ToString(exp) \o at)>>
               ELSE IF (stray \cap supers # {}) /\ \A x \in stray : x \in supers \/ Ambiguous(P, x, ord)
                 THEN <<V(r.id, "deviation", "RenameRewritesSuperSegment", "edit set " \o ToString(obs) \o " expected " \o ToString(exp) \o at)>>
               ELSE IF Ambiguous(P, r.oid, ord) \/ \A x \in stray : Ambiguous(P, x, ord)
@@ -51,6 +53,8 @@ Judge(r) ==
                 ambAfter == \E o \in P2.occs : Earlier(P2, o, ord) # {} /\ (o.node = d \/ d \in Earlier(P2, o, ord)) IN
             IF ~r.backDone /\ occ.file # r.main
               THEN <<V(r.id, "deviation", "ImportedFileSpanShadowsSymbols", "rename back inside an imported file returned no edit" \o at)>>
+            ELSE IF ShadowedCalls(P2, d) # {}
+              THEN <<V(r.id, "deviation", "RenameSkipsShadowedMacroCall", "rename back leaves a call of the macro unchanged that sits next to a non-macro symbol of the same name" \o at)>>
             ELSE IF ambAfter
               THEN <<V(r.id, "deviation", "UsageOfEarlierPassKept", "rename back is incomplete or touches an occurrence of an earlier pass" \o at)>>
             ELSE IF r.backDone THEN <<V(r.id, "violation", "", "renaming back does not restore the original text" \o at)>>
